@@ -380,7 +380,107 @@ package emitter
 //@   ensures [C01,C02:cond-fresh] Appended(result0, old(remainingChunks), old(*chunkCounter), *chunkCounter) && *chunkCounter > old(*chunkCounter)
 //@   ensures [C01,C02:cond-fresh2] forall j int :: {result0[j]} (len(old(remainingChunks)) <= j && j < len(result0)) ==> (fresh(result0[j]) && ChunkObjsAlloc(result0[j]))
 //@   ensures [C01,C02:cond-link] result1 != nil && old(*chunkCounter) < result1.id && result1.id <= *chunkCounter
-//@   ensures [C01,C02:cond-first] result2 == (firstID == -1 ? old(*chunkCounter) + (typeis(expression, ast.OperatorExpression) ? 1 : 2) : firstID) || true
+//@   ensures [C01,C02:cond-first] result2 == (firstID == -1 ? result1.id : firstID)
 //@   ensures [C01,C02,C11:cond-sem] (forall j int :: {result0[j]} (len(old(remainingChunks)) <= j && j < len(result0)) ==> EmptyChunkEq(result0[j]))
 //@        ==> BehOf(result1.id) == Cond(expression, K(successChunkID), K(failureChunkID))
+//@ end
+
+// ---- lowering of loops (C01) ----
+
+// the chunk holding the statements after statement i of curChunk ("post-logic" chunk), when i is not last
+//@ pred PostChunkOK(p *chunk, cur *chunk, i int, ret0 int) = p != nil && p.returnID == ret0 && p.branchBehavior == nil
+//@   && len(p.statements) == len(cur.statements) - (i + 1)
+//@   && (forall k int :: {p.statements[k]} (0 <= k && k < len(p.statements)) ==> p.statements[k] == cur.statements[i + 1 + k])
+
+//@ pred CondExprOK(e ast.BooleanExpression) = e == nil || BoolWF(e)
+
+//@ func createWhileStatementChunks
+//@   requires stmt != nil && stmt.Consequence != nil && stmt.Consequence.Body != nil && CondExprOK(stmt.Consequence.Expression)
+//@   requires curChunk != nil && chunkCounter != nil && *chunkCounter >= 0 && 0 <= i && i < len(curChunk.statements)
+//@   modifies *chunkCounter, curChunk.returnID
+//@   ensures [C01:while-fresh] Appended(result0, old(remainingChunks), old(*chunkCounter), *chunkCounter) && len(result0) >= len(old(remainingChunks)) + 2
+//@   ensures [C01:while-fresh2] forall j int :: {result0[j]} (len(old(remainingChunks)) <= j && j < len(result0)) ==> (fresh(result0[j]) && ChunkObjsAlloc(result0[j]))
+//@   ensures [C01:while-ret] result2 == (i == len(curChunk.statements) - 1 ? old(curChunk.returnID) : result0[len(old(remainingChunks))].id)
+//@   ensures [C01:while-post] i < len(curChunk.statements) - 1 ==> (PostChunkOK(result0[len(old(remainingChunks))], curChunk, i, old(curChunk.returnID)) && curChunk.returnID == result2)
+//@   ensures [C01:while-last] i == len(curChunk.statements) - 1 ==> curChunk.returnID == old(curChunk.returnID)
+//@   ensures [C01:while-body] result0[len(result0) - 2].statements == stmt.Consequence.Body.Statements && result0[len(result0) - 2].returnID == result0[len(result0) - 1].id
+//@        && result0[len(result0) - 2].branchBehavior == nil
+//@   ensures [C01:while-entry] result1 != nil && fresh(result1) && result1.destChunkID == result0[len(result0) - 1].id
+//@   ensures [C01,C02:while-sem] (forall j int :: {result0[j]} (len(old(remainingChunks)) <= j && j < len(result0) && j != len(result0) - 2 && (i == len(curChunk.statements) - 1 || j != len(old(remainingChunks)))) ==> EmptyChunkEq(result0[j]))
+//@        ==> BehOf(result0[len(result0) - 1].id) == (stmt.Consequence.Expression == nil ? BehOf(result0[len(result0) - 2].id)
+//@               : Cond(stmt.Consequence.Expression, BehOf(result0[len(result0) - 2].id), K(result2)))
+//@ end
+
+//@ func createDoWhileStatementChunks
+//@   requires stmt != nil && stmt.Consequence != nil && stmt.Consequence.Body != nil && BoolWF(stmt.Consequence.Expression)
+//@   requires curChunk != nil && chunkCounter != nil && *chunkCounter >= 0 && 0 <= i && i < len(curChunk.statements)
+//@   modifies *chunkCounter, curChunk.returnID
+//@   ensures [C01:dowhile-fresh] Appended(result0, old(remainingChunks), old(*chunkCounter), *chunkCounter) && len(result0) >= len(old(remainingChunks)) + 2
+//@   ensures [C01:dowhile-fresh2] forall j int :: {result0[j]} (len(old(remainingChunks)) <= j && j < len(result0)) ==> (fresh(result0[j]) && ChunkObjsAlloc(result0[j]))
+//@   ensures [C01:dowhile-ret] result2 == (i == len(curChunk.statements) - 1 ? old(curChunk.returnID) : result0[len(old(remainingChunks))].id)
+//@   ensures [C01:dowhile-post] i < len(curChunk.statements) - 1 ==> (PostChunkOK(result0[len(old(remainingChunks))], curChunk, i, old(curChunk.returnID)) && curChunk.returnID == result2)
+//@   ensures [C01:dowhile-last] i == len(curChunk.statements) - 1 ==> curChunk.returnID == old(curChunk.returnID)
+//@   ensures [C01:dowhile-body] result0[len(result0) - 2].statements == stmt.Consequence.Body.Statements && result0[len(result0) - 2].returnID == result0[len(result0) - 1].id
+//@        && result0[len(result0) - 2].branchBehavior == nil
+//@   ensures [C01:dowhile-entry] result1 != nil && fresh(result1) && result1.destChunkID == result0[len(result0) - 2].id
+//@   ensures [C01,C02:dowhile-sem] (forall j int :: {result0[j]} (len(old(remainingChunks)) <= j && j < len(result0) && j != len(result0) - 2 && (i == len(curChunk.statements) - 1 || j != len(old(remainingChunks)))) ==> EmptyChunkEq(result0[j]))
+//@        ==> BehOf(result0[len(result0) - 1].id) == Cond(stmt.Consequence.Expression, BehOf(result0[len(result0) - 2].id), K(result2))
+//@ end
+
+// ---- lowering of if / elif / else (C01, C02) ----
+
+//@ pred IfStmtOK(stmt *ast.IfStatement) = stmt != nil && stmt.Consequence != nil && stmt.Consequence.Body != nil && BoolWF(stmt.Consequence.Expression)
+//@   && (forall k int :: {stmt.ElifConsequences[k]} (0 <= k && k < len(stmt.ElifConsequences)) ==>
+//@         (stmt.ElifConsequences[k] != nil && stmt.ElifConsequences[k].Body != nil && BoolWF(stmt.ElifConsequences[k].Expression)))
+
+//@ pred IfBodies(rem seq[*chunk], stmt *ast.IfStatement, m int, ret int) =
+//@        m + 1 + len(stmt.ElifConsequences) + (stmt.ElseConsequence != nil ? 1 : 0) <= len(rem)
+//@        && rem[m].statements == stmt.Consequence.Body.Statements && rem[m].returnID == ret && rem[m].branchBehavior == nil
+//@        && (forall k int :: {stmt.ElifConsequences[k]} (0 <= k && k < len(stmt.ElifConsequences)) ==>
+//@               (rem[m + 1 + k].statements == stmt.ElifConsequences[k].Body.Statements && rem[m + 1 + k].returnID == ret
+//@                && rem[m + 1 + k].branchBehavior == nil && rem[m + 1 + k].id == rem[m].id + 1 + k))
+//@        && (stmt.ElseConsequence != nil ==> (rem[m + 1 + len(stmt.ElifConsequences)].statements == stmt.ElseConsequence.Statements
+//@               && rem[m + 1 + len(stmt.ElifConsequences)].returnID == ret && rem[m + 1 + len(stmt.ElifConsequences)].branchBehavior == nil
+//@               && rem[m + 1 + len(stmt.ElifConsequences)].id == rem[m].id + 1 + len(stmt.ElifConsequences)))
+
+//@ func createIfStatementChunks
+//@   requires IfStmtOK(stmt) && curChunk != nil && chunkCounter != nil && *chunkCounter >= 0 && 0 <= i && i < len(curChunk.statements)
+//@   modifies *chunkCounter, curChunk.returnID
+//@   useret ElifSemDef(stmt, 0, result0[len(old(remainingChunks)) + (i == len(curChunk.statements) - 1 ? 0 : 1)].id + 1,
+//@                  (stmt.ElseConsequence != nil ? BehOf(result0[len(old(remainingChunks)) + (i == len(curChunk.statements) - 1 ? 0 : 1)].id + 1 + len(stmt.ElifConsequences)) : K(curChunk.returnID)))
+//@   ensures [C01:if-fresh] Appended(result0, old(remainingChunks), old(*chunkCounter), *chunkCounter)
+//@   ensures [C01:if-fresh2] forall j int :: {result0[j]} (len(old(remainingChunks)) <= j && j < len(result0)) ==> (fresh(result0[j]) && ChunkObjsAlloc(result0[j]))
+//@   ensures [C01:if-post] i < len(curChunk.statements) - 1 ==> (PostChunkOK(result0[len(old(remainingChunks))], curChunk, i, old(curChunk.returnID)) && curChunk.returnID == result0[len(old(remainingChunks))].id)
+//@   ensures [C01:if-last] i == len(curChunk.statements) - 1 ==> curChunk.returnID == old(curChunk.returnID)
+//@   ensures [C01:if-bodies] IfBodies(result0, stmt, len(old(remainingChunks)) + (i == len(curChunk.statements) - 1 ? 0 : 1), curChunk.returnID)
+//@   ensures [C01:if-entry] result1 != nil && fresh(result1)
+//@   ensures [C01,C02:if-sem] (forall j int :: {result0[j]} (len(old(remainingChunks)) + (i == len(curChunk.statements) - 1 ? 0 : 1) + 1 + len(stmt.ElifConsequences) + (stmt.ElseConsequence != nil ? 1 : 0) <= j && j < len(result0)) ==> EmptyChunkEq(result0[j]))
+//@        ==> K(result1.destChunkID) == Cond(stmt.Consequence.Expression, BehOf(result0[len(old(remainingChunks)) + (i == len(curChunk.statements) - 1 ? 0 : 1)].id),
+//@               ElifSem(stmt, 0, result0[len(old(remainingChunks)) + (i == len(curChunk.statements) - 1 ? 0 : 1)].id + 1,
+//@                  (stmt.ElseConsequence != nil ? BehOf(result0[len(old(remainingChunks)) + (i == len(curChunk.statements) - 1 ? 0 : 1)].id + 1 + len(stmt.ElifConsequences)) : K(curChunk.returnID))))
+//@   loop 1
+//@     invariant [C01:if-inv] Appended(remainingChunks, old(remainingChunks), old(*chunkCounter), *chunkCounter) && *chunkCounter >= 0 && $i <= len(stmt.ElifConsequences)
+//@     invariant [C01:if-inv] len(remainingChunks) == len(old(remainingChunks)) + (i == len(curChunk.statements) - 1 ? 0 : 1) + 1 + $i && len(elifChunks) == $i
+//@     invariant [C01:if-inv] forall j int :: {remainingChunks[j]} (len(old(remainingChunks)) <= j && j < len(remainingChunks)) ==> (fresh(remainingChunks[j]) && ChunkObjsAlloc(remainingChunks[j]))
+//@     invariant [C01:if-inv] consequenceChunk == remainingChunks[len(old(remainingChunks)) + (i == len(curChunk.statements) - 1 ? 0 : 1)] && consequenceChunk.id == *chunkCounter - $i
+//@     invariant [C01:if-inv] consequenceChunk.statements == stmt.Consequence.Body.Statements && consequenceChunk.returnID == returnID && consequenceChunk.branchBehavior == nil
+//@     invariant [C01:if-inv] returnID == curChunk.returnID && (i < len(curChunk.statements) - 1 ==> (PostChunkOK(remainingChunks[len(old(remainingChunks))], curChunk, i, old(curChunk.returnID)) && curChunk.returnID == remainingChunks[len(old(remainingChunks))].id))
+//@     invariant [C01:if-inv] i == len(curChunk.statements) - 1 ==> curChunk.returnID == old(curChunk.returnID)
+//@     invariant [C01:if-inv] forall k int :: {elifChunks[k]} (0 <= k && k < $i) ==> (elifChunks[k] == remainingChunks[len(old(remainingChunks)) + (i == len(curChunk.statements) - 1 ? 0 : 1) + 1 + k]
+//@            && elifChunks[k].statements == stmt.ElifConsequences[k].Body.Statements && elifChunks[k].returnID == returnID && elifChunks[k].branchBehavior == nil && elifChunks[k].id == consequenceChunk.id + 1 + k)
+//@   loop 2
+//@     modifies *chunkCounter
+//@     use ElifSemDef(stmt, i, consequenceChunk.id + 1, (stmt.ElseConsequence != nil ? BehOf(elseChunk.id) : K(returnID)))
+//@     use ElifSemDef(stmt, len(stmt.ElifConsequences), consequenceChunk.id + 1, (stmt.ElseConsequence != nil ? BehOf(elseChunk.id) : K(returnID)))
+//@     invariant [C01:if-inv2] -1 <= i && i < len(elifChunks) && *chunkCounter >= pre(*chunkCounter)
+//@     invariant [C01:if-inv2] len(remainingChunks) == len(pre(remainingChunks)) + (*chunkCounter - pre(*chunkCounter))
+//@     invariant [C01:if-inv2] forall j int :: {remainingChunks[j]} {pre(remainingChunks)[j]} (0 <= j && j < len(pre(remainingChunks))) ==> remainingChunks[j] == pre(remainingChunks)[j]
+//@     invariant [C01:if-inv2] forall j int :: {remainingChunks[j]} (len(pre(remainingChunks)) <= j && j < len(remainingChunks)) ==>
+//@           (remainingChunks[j] != nil && pre(*chunkCounter) < remainingChunks[j].id && remainingChunks[j].id <= *chunkCounter && fresh(remainingChunks[j]) && ChunkObjsAlloc(remainingChunks[j]))
+//@     invariant [C01:if-inv2] forall j int, j2 int :: {remainingChunks[j], remainingChunks[j2]} (len(pre(remainingChunks)) <= j && j < j2 && j2 < len(remainingChunks)) ==> remainingChunks[j].id != remainingChunks[j2].id
+//@     invariant [C01,C02:if-sem-inv] i < len(elifChunks) - 1 ==> (
+//@            (forall j int :: {remainingChunks[j]} (len(pre(remainingChunks)) <= j && j < len(remainingChunks)) ==> EmptyChunkEq(remainingChunks[j]))
+//@        ==> K(prevElifEntryID) == ElifSem(stmt, i + 1, consequenceChunk.id + 1, (stmt.ElseConsequence != nil ? BehOf(elseChunk.id) : K(returnID))))
+//@     invariant [C01:if-inv2] i < len(elifChunks) - 1 ==> (pre(*chunkCounter) < prevElifEntryID && prevElifEntryID <= *chunkCounter)
+//@     decreases i + 1
 //@ end
